@@ -44,7 +44,7 @@ BIGQ = 10 ** 7
 
 def _engine(n, q=BIGQ, **kw):
     opts = {'yaql.limitIterators': n, 'yaql.memoryQuota': q}
-    opts.update(kw)
+    opts.update({'yaql.' + k: v for k, v in kw.items()})
     return common.engine(opts)
 
 
@@ -215,6 +215,10 @@ def _build_data(shape, k):
             inner = {'a': inner}
         elif wrap == 'gen':
             inner = (x for x in [inner])
+        elif wrap == 'setmember':
+            inner = {inner, 0}
+        elif wrap == 'dictkey':
+            inner = {inner: 0}
     return inner
 
 
@@ -234,7 +238,9 @@ def check_shape(run, case):
         desc = '%s with k=%d' % (text, k)
     else:
         data = _build_data(case['shape'], k)
-        expected_max = max(k, 2 if 'list' in case['shape']['wraps'] else 1)
+        expected_max = max(k, 2 if ('list' in case['shape']['wraps'] or
+                                    'setmember' in case['shape']['wraps'])
+                           else 1)
         if not case['shape']['wraps']:
             expected_max = k
         run.guard(case)
@@ -260,7 +266,14 @@ def check_shape(run, case):
                             desc, n, type(out[1]).__name__, out[1]),
                         exc=out[1], input_class=str(ic))
     else:
-        if out[0] != 'ok':
+        hashpos = 'shape' in case and (
+            'dictkey' in case['shape']['wraps'] or (
+                'setmember' in case['shape']['wraps'] and
+                not case.get('sets_to_lists', False)))
+        if hashpos and out[0] != 'ok' and isinstance(out[1], TypeError):
+            run.exclude('container in a hashable position fails to finalise '
+                        '(C10 known finding)')
+        elif out[0] != 'ok':
             run.violate('within-limit-but-raises', case,
                         '%s under limitIterators=%d (largest container %d) '
                         'raised %s: %s' % (desc, n, expected_max,
@@ -510,6 +523,11 @@ def shape_cases(draw):
                                            'iter', 'range'])),
             'wraps': draw(st.lists(st.sampled_from(
                 ['list', 'tuple', 'dict', 'gen']), max_size=3))}
+        if c['shape']['inner'] in ('tuple', 'frozenset') and \
+                draw(st.booleans()):
+            # the size-k container in a hashable position
+            c['shape']['wraps'].append(draw(st.sampled_from(
+                ['setmember', 'setmember', 'dictkey'])))
     return c
 
 
